@@ -60,6 +60,21 @@ Definition material_le (b' b : pbs) : bool :=
 Definition no_trap_violation (b : pbs) : bool :=
   forallb (fun i => negb (unsupported_on_trap (cell b) i)) sq64.
 
+(* executable form of the invariant under which the `inv`-level clauses are theorems (proofs/InvExec.v:
+   inv_exec s = true -> exists pp, HashInv s pp): well-formed boards, at most three earlier boards, a pending status
+   names an empty on-board square and occurs only after the first step, the hash is the from-scratch hash *)
+Definition inv_exec (s : state) : bool :=
+  match ph s with
+  | PlayPhase pp =>
+    wfb_exec (board s) && forallb wfb_exec (prev pp) && (step_of pp <=? 3) &&
+    (match pstate pp with
+     | PPNone => true
+     | PossiblePull sq _ | MustCompletePush sq _ => (sq <? 64) && negb (occupied (cell (board s)) sq) && (1 <=? step_of pp)
+     end) &&
+    (hash s =? z_from_piece_board (board s) (side s) (step_of pp))
+  | PlacePhase => false
+  end.
+
 (* ------------------------------------------------------------------------------------------
    per-state monitors.  `reach` = the state was produced from a start state through offered
    actions only (false for states assembled with the public constructors).  `inv` = reach, or the state was assembled
@@ -76,6 +91,7 @@ Definition mon_block (dbg reach inv nopanic : bool) (b : blk) : list (N * N) :=
   match dec_state sl with
   | None => [(0, 1)]
   | Some s =>
+    let inv := reach || (inv && inv_exec s) in      (* assembled states: only if they pass the executable invariant *)
     let m := observe dbg s in
     let gm t := match get t m with Some v => v | None => [] end in
     let c := cell (board s) in
@@ -355,7 +371,7 @@ Definition mon_trans (hist_ok : bool) (g : ghost) (b : blk) (code : N) (b' : blk
         fails 10 3 (within_complement (board s'))
       | _, _ => [(0, 3)]
       end in
-      (res, g')
+      ((if hist_ok || inv_exec s then res else []), g')
     | _, _, _ => ([], g)
     end
   | _, _ => ([], g)
